@@ -72,6 +72,11 @@ def programs():
     for (plabel, ptmpl), (slabel, stext) in itertools.product(positions[:12] + positions[24:30], shows[1:]):
         prog = ptmpl.format(A="t(X)") + "\n" + stext
         out.append({"program": prog, "tag": f"detect:{plabel}:{slabel}"})
+    # atoms whose symbol is a pool (argument pools and tuple pools), in every position
+    for (plabel, ptmpl), (dlabel, dtext) in itertools.product(positions, definitions[:4]):
+        for pool in ("t(X;X+1)", "t(X,1;X,2)", "t(1;2)"):
+            prog = ptmpl.replace("{A}", pool).replace("{{", "{").replace("}}", "}") + "\n" + dtext.replace("t(X)", "t(X,X)" if "," in pool else "t(X)")
+            out.append({"program": prog, "tag": f"detect:{plabel}:{dlabel}:pool"})
     # zero-arity and multi-arity occurrences, same name different arity
     for (plabel, ptmpl) in positions[:8] + positions[14:20]:
         out.append({"program": ptmpl.replace("{A}", "t").replace("{{", "{").replace("}}", "}") + "\nt(X) :- e(X).", "tag": f"detect:{plabel}:arity0-vs-1"})
